@@ -249,6 +249,28 @@ def r6(p, rep):
 def r7(p, rep):
     rep.rule("C12.R7", "exclusive end positions are never used as marker positions", "typestate lint on .end_pos", floor=10)
     mods = [p.module("namedtensor.stage1.parse"), p.module("namedtensor.util"), p.module("frontend.errors"), p.module("adapter.einx_from_namedtensor")]
+    # checks that were moved into sibling modules of the parser are part of it
+    mods += [m for m in p.modules.values() if m.name.startswith("einx._src.namedtensor.stage1.") and not any(m is x for x in mods) and not m.name.endswith(".tree")]
+
+    def returned_as_positions(display):
+        """the display is what a helper returns, and a call of that helper is used as marker positions
+        (`pos.extend(helper(..))`, `pos=helper(..)`, `pos.append(..)`)"""
+        ret = getattr(display, "_parent", None)
+        h = p.func_containing(display)
+        if not isinstance(ret, ast.Return) or h is None:
+            return False
+        for m2 in mods:
+            for c in ast.walk(m2.tree):
+                if isinstance(c, ast.Call) and resolve_callee(p, c, m2) == ("func", h):
+                    cp = getattr(c, "_parent", None)
+                    if isinstance(cp, ast.keyword) and cp.arg == "pos":
+                        return True
+                    if isinstance(cp, ast.Call) and isinstance(cp.func, ast.Attribute) and cp.func.attr in ("extend", "append") and c in cp.args:
+                        return True
+                    if isinstance(cp, (ast.Assign, ast.AugAssign)) and any("pos" in norm(t) for t in (cp.targets if isinstance(cp, ast.Assign) else [cp.target])):
+                        return True
+        return False
+
     for m in mods:
         for n in ast.walk(m.tree):
             if not (isinstance(n, ast.Attribute) and n.attr == "end_pos" and isinstance(n.ctx, ast.Load)):
@@ -264,6 +286,8 @@ def r7(p, rep):
                 if isinstance(gp, ast.Call) and isinstance(gp.func, ast.Attribute) and gp.func.attr in ("extend", "append"):
                     as_index = True
                 if isinstance(gp, ast.keyword) and gp.arg == "pos":
+                    as_index = True
+                if isinstance(gp, ast.Return) and returned_as_positions(par):
                     as_index = True
             if isinstance(par, ast.Call) and isinstance(par.func, ast.Attribute) and par.func.attr == "append" and n in par.args:
                 as_index = True
